@@ -6,12 +6,17 @@ import (
 	"errors"
 	"fmt"
 	"iter"
+	"log/slog"
 	"strings"
 	"sync"
 	"testing"
 	"testing/synctest"
 	"time"
 
+	"github.com/cilium/hive"
+	"github.com/cilium/hive/cell"
+	"github.com/cilium/hive/hivetest"
+	"github.com/cilium/hive/job"
 	"github.com/cilium/statedb"
 	"github.com/cilium/statedb/index"
 	"github.com/cilium/statedb/lpm"
@@ -81,6 +86,7 @@ type dbSrc struct {
 type dbOp struct {
 	Op      string `json:"op"`
 	T       int    `json:"t"`
+	T2      int    `json:"t2"` // derive: output table
 	Tx      int    `json:"tx"`
 	Tables  []int  `json:"tables"`
 	Obj     jObj   `json:"obj"`
@@ -162,6 +168,12 @@ type dbState struct {
 	order    []int
 	iters    map[int]*dbIter
 	obs      map[int]*dbObserver
+	hive     *hive.Hive // job group for statedb.Derive, started on first use
+	hlog     *slog.Logger
+	jobs     job.Group
+	lc       cell.Lifecycle
+	derived  map[int]bool // output tables of Derive jobs
+	tt       *testing.T
 	dones    map[string]func(statedb.WriteTxn)
 	open     map[int]bool // write transactions not yet committed/aborted
 	held     map[int]int  // table -> open transaction holding it
@@ -170,6 +182,37 @@ type dbState struct {
 	// table lock is then expected and virtual-time helpers are off
 	concurrent bool
 	mu         sync.Mutex
+}
+
+// deriveTransform is the transformation used with statedb.Derive (the same function is written down in DB.tla,
+// DeriveKind): by value modulo 4: 0 -> skip, 1 -> update only if present, otherwise insert; deletions delete,
+// except for values = 0 mod 4, which are skipped.
+func deriveTransform(o *dbObj, deleted bool) (*dbObj, statedb.DeriveResult) {
+	out := &dbObj{PK: o.PK, Val: o.Val}
+	switch {
+	case o.Val%4 == 0:
+		return out, statedb.DeriveSkip
+	case deleted:
+		return out, statedb.DeriveDelete
+	case o.Val%4 == 1:
+		return out, statedb.DeriveUpdate
+	}
+	return out, statedb.DeriveInsert
+}
+
+func (st *dbState) ensureJobs() {
+	if st.hive != nil {
+		return
+	}
+	st.hive = hive.New(
+		job.Cell,
+		cell.Provide(cell.NewSimpleHealth, func(r job.Registry, h cell.Health) job.Group { return r.NewGroup(h) }),
+		cell.Invoke(func(g job.Group, lc cell.Lifecycle) { st.jobs, st.lc = g, lc }),
+	)
+	st.hlog = hivetest.Logger(st.tt, hivetest.LogLevel(slog.LevelError))
+	if err := st.hive.Start(st.hlog, context.TODO()); err != nil {
+		panic(err)
+	}
 }
 
 func (st *dbState) release(tx int) {
@@ -575,6 +618,26 @@ func (st *dbState) exec(op dbOp) Ev {
 		}
 		return Ev{"op": "next", "it": op.It, "src": srcMap(op.Src), "take": op.Take, "cs": cs, "cw": cw,
 			"ex": exhausted, "w": w}
+	case "derive":
+		// statedb.Derive from table T into table T2: a job of the library mirrors T (its own change iterator) into
+		// T2 with deriveTransform.  Sequential driver only, no table held.
+		in, out := st.tables[op.T], st.tables[op.T2]
+		if st.concurrent || in == nil || out == nil || len(st.open) > 0 || st.derived[op.T2] || op.T == op.T2 || st.iters[op.It] != nil {
+			return nop
+		}
+		st.ensureJobs()
+		statedb.Derive[*dbObj, *dbObj]("derive", deriveTransform)(statedb.DeriveParams[*dbObj, *dbObj]{
+			Lifecycle: st.lc, JobGroup: st.jobs, DB: st.db, InTable: in.tbl, OutTable: out.tbl})
+		st.derived[op.T2] = true
+		synctest.Wait()
+		return Ev{"op": "derive", "it": op.It, "t": op.T, "t2": op.T2}
+	case "derivesync":
+		// the job has had time to react to everything committed so far
+		if st.concurrent || len(st.open) > 0 || !st.derived[op.T2] {
+			return nop
+		}
+		synctest.Wait()
+		return Ev{"op": "derivesync", "it": op.It, "t2": op.T2}
 	case "observe":
 		// statedb.Observable: a goroutine of the library creates a change iterator in a transaction of its own
 		// and pushes every batch to the subscriber.  Only in the sequential driver and while no table is held
@@ -708,6 +771,8 @@ func runDBScript(t *testing.T, sc Script, log *Log, next int) {
 			chans:   map[int]<-chan struct{}{},
 			iters:   map[int]*dbIter{},
 			obs:     map[int]*dbObserver{},
+			derived: map[int]bool{},
+			tt:      t,
 			dones:   map[string]func(statedb.WriteTxn){},
 			open:    map[int]bool{},
 			held:    map[int]int{},
@@ -744,6 +809,11 @@ func runDBScript(t *testing.T, sc Script, log *Log, next int) {
 			for _, ob := range st.obs {
 				ob.cancel()
 				<-ob.done
+			}
+			if st.hive != nil {
+				if err := st.hive.Stop(st.hlog, context.TODO()); err != nil {
+					panic(err)
+				}
 			}
 			for _, di := range st.iters {
 				di.it.Close()
